@@ -222,7 +222,9 @@ P["C16"] = dict(
         ("Props.C16.C16_type_third", "then explicit type"),
         ("Props.C16.C16_precision_fourth", "then precision"),
         ("Props.C16.C16_kind_last", "then the JSON kind"),
-        ("Props.C16.C16_rules_order", "rules listed in constraint-map order, types hidden")),
+        ("Props.C16.C16_rules_order", "rules listed in constraint-map order, types hidden"),
+        ("Props.C16.C16_annotation_binds_last_node", "loader model: an annotation binds to the node created last"),
+        ("Props.C16.C16_rule_needs_exactly_one_node", "loader model: rules need exactly one node on the line (803 / 804)")),
     runs=[{"cmd": ["c16-ast"]}, {"cmd": ["loader-diff"]}],
     partial="type precedence and rule order are theorems on the AST model; text -> node tree (scanner + loader) is a Lean model compared with the real GetAST (loader-diff: kinds in source order, keys, shortcut flags, values, rule names in order, notes); the rule values' AST is translation-validated",
     level_text="Translation validation: the generator's abstract schema determines the expected AST (one node per example value in source order, key/shortcut flag, token kind, value, declared-or-inferred type, rules with names/values/order/source marks, notes); the real GetAST() of the printed text is compared field by field. The type-precedence decision table and the rule order are additionally theorems on a Lean model of astNodeFromNode.",
